@@ -7,11 +7,14 @@ import lib
 PROP = "C07"
 LEVEL = "proof"
 THEOREM_FILE = "properties/C07.v"
-CASE_DEPS = ["theories/RepModel.v"]
+CASE_DEPS = ["theories/RepModel.v", "theories/CompileTop.v", "theories/DenSrc.v", "theories/Checks.v"]
 RULE = ("stream rep-direct: seeded random repetition objects of all five sequence kinds (symbolic and numeric "
         "count/parameters), Repetition.sequence_sum/sequence_prod of the real code compared inside Coq (vm_compute, exact "
         "rationals) with the generated formula (tie) and with the unrolled sum over i<count (spec) at counts 0..12; "
-        "non-trivial = count>=2 at some point and the child expression is not a constant; distinct by canonical JSON hash")
+        "non-trivial = count>=2 at some point and the child expression is not a constant; distinct by canonical JSON hash. "
+        "stream hier-repeat: repetition-heavy random hierarchies (nested repetitions, counts and sequence parameters linked from "
+        "parents under shared names) compiled by the real code and compared at every node with the compile model (tie) and the "
+        "bottom-up denotation, whose repetition clause is the unrolled sum (spec)")
 TRUSTED_BASE = ["GenRepetitions.v is regenerated from src/bartiq/repetitions.py on every run; python operators on sympy objects are read as +,-,*,/,** (translator assumption)"]
 ASSUMPTIONS = ["power with a natural-number exponent is repeated multiplication (Qpower)", "sympy arithmetic preserves value (exercised by the stream, not proved)"]
 
@@ -127,15 +130,38 @@ def distribution(cases):
     return {"by_kind": d}
 
 
+def has_rep(r):
+    return r.get("repetition") is not None or any(has_rep(c) for c in r["children"])
+
+
+def hier_repeat_stream(cases):
+    from props import c01
+
+    st = c01.mk_stream(cases)
+    st["name"] = "hier-repeat"
+    return st
+
+
 def streams(tier, seed):
+    from props import c01
+
     rng = lib.Rng(f"C07-{seed}")
     n = 240 if tier == "quick" else 4000
-    corpus = lib.load_corpus("C07", "rep-direct") if hasattr(lib, "load_corpus") else []
-    cases = corpus + [gen_case(rng) for _ in range(n)]
-    return [{"name": "rep-direct", "impl_stream": "rep-direct", "cases": cases, "emit": emit, "shard_size": 60,
-             "nontrivial": nontrivial, "distribution": distribution}]
+    cases = lib.load_corpus("C07", "rep-direct") + [gen_case(rng) for _ in range(n)]
+    direct = {"name": "rep-direct", "impl_stream": "rep-direct", "cases": cases, "emit": emit, "shard_size": 60,
+              "nontrivial": nontrivial, "distribution": distribution}
+    # embedded at any level of a hierarchy: repetition-heavy hierarchies, compared with the bottom-up denotation
+    m = 100 if tier == "quick" else 2000
+    hier = []
+    while len(hier) < m:
+        c = c01.gen_cases(rng, 1, 3 if tier == "quick" else 4, p_rep=0.6)[0]
+        if has_rep(c["routine"]):
+            hier.append(c)
+    return [direct, hier_repeat_stream(lib.load_corpus("C07", "hier-repeat") + hier)]
 
 
 def replay_streams(payload):
+    if payload.get("stream") == "hier-repeat":
+        return [hier_repeat_stream([payload["case"]])]
     return [{"name": "rep-direct", "impl_stream": "rep-direct", "cases": [payload["case"]], "emit": emit, "shard_size": 60,
              "nontrivial": nontrivial, "distribution": distribution}]
